@@ -65,8 +65,9 @@ func scan(text string) []piece {
 				i = n
 			}
 			out = append(out, piece{"s", text[start:i], start})
-		case isWordStart(c):
-			digit := c >= '0' && c <= '9'
+		case isWordStart(c) || (c == '.' && i+1 < n && text[i+1] >= '0' && text[i+1] <= '9'):
+			digit := c == '.' || (c >= '0' && c <= '9')
+			hex := c == '0' && i+1 < n && (text[i+1] == 'x' || text[i+1] == 'X')
 			i++
 			for i < n {
 				d := text[i]
@@ -76,8 +77,7 @@ func scan(text string) []piece {
 						continue
 					}
 					// exponent sign of a decimal float
-					if (d == '+' || d == '-') && (text[i-1] == 'e' || text[i-1] == 'E') &&
-						!(len(text[start:i]) > 1 && (text[start+1] == 'x' || text[start+1] == 'X')) {
+					if (d == '+' || d == '-') && (text[i-1] == 'e' || text[i-1] == 'E') && !hex {
 						i++
 						continue
 					}
@@ -86,12 +86,6 @@ func scan(text string) []piece {
 				if !isWordStart(d) {
 					break
 				}
-				i++
-			}
-			out = append(out, piece{"w", text[start:i], start})
-		case c == '.' && i+1 < n && text[i+1] >= '0' && text[i+1] <= '9':
-			i++
-			for i < n && isWordChar(text[i]) {
 				i++
 			}
 			out = append(out, piece{"w", text[start:i], start})
